@@ -68,5 +68,6 @@ Expected(v, L, d) ==
     [] OTHER -> 0
 
 \* generous caps on what a victim may queue however many hostile frames arrive
-QueueCaps == <<64, 70, 600, 600, 20000, 2000>>
+\* (pending RETIRE_CONNECTION_ID frames: quinn refuses to queue more than 50)
+QueueCaps == <<52, 70, 600, 600, 20000, 2000>>
 =============================================================================
